@@ -4,6 +4,8 @@ CONSTANTS
   Progs <- MCProgs
   W = 2
   Locked = TRUE
+  Login = FALSE
+  SwapUnderLock = TRUE
 INVARIANT FramesContiguous
 INVARIANT ExactlyOnce
 INVARIANT QueuedFifo
